@@ -198,7 +198,7 @@ pub fn run(ctx: &Ctx) -> usize {
 		ctx.put("schema_cells_enumerated", json!(n));
 	}
 	let cfg = cfg_for(ctx);
-	if run_dna(ctx, "dna", ctx.n(3000, 150_000), dna_max(ctx), |dna, counting| check(ctx, &model_from_dna(dna, &cfg), "dna", counting)).is_some() {
+	if run_dna(ctx, "dna", ctx.n(20_000, 1_000_000), dna_max(ctx), |dna, counting| check(ctx, &model_from_dna(dna, &cfg), "dna", counting)).is_some() {
 		violations += 1;
 	}
 	violations
